@@ -840,6 +840,10 @@ class Interp:
                 return TorchMod("torch.nn.functional")
             if modname == "torch" and attr == "Tensor":
                 return TYPE_TOKS["Tensor"]
+            if modname == "torch.nn.functional" and attr in FN:
+                return ("torchfn.F", attr)          # from torch.nn.functional import one_hot, ...
+            if modname == "torch" and attr in TF:
+                return ("torchfn", attr)
             if modname.startswith("tensordict"):
                 if attr in ("TensorDict", "TensorDictBase"):
                     return TYPE_TOKS["TensorDict"]
@@ -953,6 +957,9 @@ class Interp:
         return self.getattr(obj, e.attr, fr)
 
     def getattr(self, obj, name, fr):
+        if isinstance(obj, TypeTok) and obj.name == "Tensor" and name in TM:
+            # unbound method: torch.Tensor.float(x) == x.float()
+            return lambda t, *a, **k: TM[name](t, *a, **k)
         if isinstance(obj, SymTensor):
             if name == "shape":
                 return tuple(obj.shape)
@@ -1131,6 +1138,7 @@ class Interp:
         last = None
         for k, sub in enumerate(e.values):
             v = self.eval(sub, env, fr)
+            orig = v            # `a or b` / `a and b` return the deciding OPERAND, not its truth value
             last_operand = k == len(e.values) - 1
             if isinstance(v, (SymTensor,)) or is_z3(v):
                 t = self.truth(v)
@@ -1148,10 +1156,10 @@ class Interp:
             tv = self.truth(v)
             if isinstance(tv, bool):
                 if is_and and not tv:
-                    return v if acc is None else False
+                    return orig if acc is None else False
                 if (not is_and) and tv:
-                    return v if acc is None else True
-                last = v
+                    return orig if acc is None else True
+                last = orig
                 continue
             acc = tv if acc is None else (AND(acc, tv) if is_and else OR(acc, tv))
         if acc is None:
